@@ -199,6 +199,33 @@ def run(tier):
     corpus += [s for _, s, _ in gen_core.f5_control(3)] + mods[:3000] + wt[:500]
     if q:
         corpus = corpus[::4]
+    # totality family: every module of <=2 statements over statement templates with identifier holes x names that are
+    # {a list defined before, defined only later, never defined, a builtin function, a type}, at module level and in a def body
+    templ = ["{N}.append(1)", "{N}.extend([1])", "{N}.insert(0, 1)", "{N}.append({M})", "{N}.x = 1", "{N}[0] = 1", "{N} += 1", "{N} = {M}",
+             "{N}(1)", "z = {N}", "for {N} in {M}:\n    pass", "z = [{N} for {N} in {M}]", "{N}: {M} = 1", "z = lambda {N} = {M}: {N}",
+             "z = {N} if {M} else 0", "z = isinstance({N}, {M})", "z = {N}.{M}", "z = {N}[{M}:]", "z = {{{N}: {M}}}", "z = ({N}, {M})[0]",
+             "def h({N} = {M}):\n    return {N}", "z = {N} + {M}", "z = {N} in {M}", "z = not {N}", "z = -{N}", "{N}.{M}(1)", "z: list[{N}] = []"]
+    names = ["a", "late", "undef", "len", "int"]
+    tot = []
+    def fill(t):
+        out = []
+        for n_ in names:
+            for m_ in (names if "{M}" in t else [""]):
+                out.append(t.replace("{N}", n_).replace("{M}", m_))
+        return out
+    singles = [x for t in templ for x in fill(t)]
+    pair_src = singles if not q else singles[::3]
+    for level in ("module", "def"):
+        def wrap(body):
+            if level == "module":
+                return "a = [1]\n" + body + "\nlate = 2\n"
+            return "a = [1]\ndef g(p):\n" + "".join("    " + l + "\n" for l in body.split("\n")) + "    return p\nlate = 2\n"
+        for x in singles:
+            tot.append(wrap(x))
+        for x in pair_src[::7]:
+            for y in pair_src[::5]:
+                tot.append(wrap(x + "\n" + y))
+    corpus += tot
     corpus = list(dict.fromkeys(corpus))
     cspecs = [{"id": i, "src": m, "names": ["v", "f", "x"], "eval": False} for i, m in enumerate(corpus)]
     a = analyze(cspecs + cspecs)
@@ -226,7 +253,9 @@ def run(tier):
                 "comprehension variable) x 32 right-hand sides (15 the checker types definitely, 17 it does not): for each exported "
                 "binding whose interface type is not Any and with no approximation flagged, the value after evaluation must belong to "
                 "the rendered type. B: modules well typed by construction over int/str/bool/list[int]/dict[str,int] (annotated defs, "
-                "returns, annotated assignments, calls by position and keyword): zero errors. C: generated corpus (optimiser, scoping, "
+                "returns, annotated assignments, calls by position and keyword): zero errors. C: totality family (every module of <=2 "
+                "statements over 27 statement templates with identifier holes x {defined list, defined later, undefined, builtin, type}, "
+                "at module level and in a def) + generated corpus (optimiser, scoping, "
                 "control-flow families, mostly ill-typed): no crash, identical diagnostics twice in-process and under another std hash "
                 "seed. distinct_nontrivial = distinct modules in A and B",
         "committed_bindings": committed, "judged": judged, "unjudged_renderings": unjudged, "render_heads": sorted(renders)[:40],
